@@ -362,7 +362,12 @@ def check_step(ck, rng, spec, cfg, case_key):
     # ---- (5) history: a second step on the same optimiser after the caller updated the weight tensors IN PLACE (and, half of the
     # time, the data): the second linear system must be built from the current weights, not from anything remembered
     finite = all(torch.isfinite(v).all() for v in after.values())
-    if cfg["weight"] and finite and rng.random() < 0.7:
+    # a first step of astronomic size (indefinite clamped system) leaves finite but absurd parameters (Sim3 scales of e^100): the model
+    # is then outside the domain of its own operations and a second step decides nothing
+    sane = not steps_seen or max(steps_seen) < 50
+    if not sane:
+        ck.note_add("second_step_not_taken_after_first_step_of_magnitude_ge_50", 1)
+    if cfg["weight"] and finite and sane and rng.random() < 0.7:
         wl = weights if isinstance(weights, (list, tuple)) else [weights]
         with torch.no_grad():
             for w_ in wl:
